@@ -6,7 +6,7 @@ import OwlModel.Driver.Ops2
 namespace Owl.Drv
 open Owl
 
-def opChain (_args : List String) (_impl : String) : String × String := ("-", "-")
+def opChain (_args : List String) (_impl : String) : String × String := ("~", "-")
 
 /-- perft on the implementation model's legal generator -/
 def perftM : Nat → Impl.Board → Nat
